@@ -381,11 +381,22 @@ def r3_layering(a, tier):
         if got != want:
             rep.fail(fc.qualname, f'erases:{what}', f'a soft override with {what} is {"dropped" if got else "applied"}; documented: '
                      f'{"dropped" if want else "applied"}', fc.loc)
-    keep = [n for n in walk_no_defs(fc.node) if isinstance(n, ast.DictComp)]
-    ok = any('hard or not erases(name, value)' in norm(k) for k in keep)
-    rep.add({'_find_common_filter': [norm(k)[-70:] for k in keep], 'ok': ok})
-    if not ok:
-        rep.fail(fc.qualname, 'find-common', 'the override filter is not `hard or not erases(name, value)`', fc.loc)
+    # _find_common as a whole, interpreted: soft override drops erasing values and unknown names, hard override keeps known names
+    from ..modelinterp import ModelInterp as _MI2, Stub as _Stub2
+    for hard in (False, True):
+        me = _Stub2('tatsu.util.configs.Config', a=1, b='x', c=None, d=[1])
+        settings = {'a': None, 'b': '', 'c': 'v', 'd': [], 'zzz': 1}
+        try:
+            got = _MI2(a, {'Undefined': und}).call_fn(fc, [me], {'hard': hard, **settings})
+        except Unsupported as e:
+            raise AnalysisError(f'cannot interpret {fc.qualname}: {e}') from e
+        want = {'a': None, 'b': '', 'c': 'v', 'd': []} if hard else {'b': '', 'c': 'v'}
+        ok = got == want
+        rep.add({'_find_common': 'hard' if hard else 'soft', 'settings': {k: repr(v) for k, v in settings.items()}, 'kept': sorted(got) if isinstance(got, dict) else repr(got), 'ok': ok})
+        if not ok:
+            rep.fail(fc.qualname, f'find-common:{"hard" if hard else "soft"}', f'{"hard" if hard else "soft"} override of a config holding '
+                     f'a=1, b="x", c=None, d=[1] with {settings} keeps {got}; documented: {want} (a soft override never lets None / '
+                     f'Undefined / an empty container erase a value, an empty string or False does apply; unknown names are dropped)', fc.loc)
     # api.compile
     comp = a.p.func('tatsu.api.api.compile')
     gen_ctor = [n for n in walk_no_defs(comp.node) if isinstance(n, ast.Call) and dotted(n.func).endswith('TatSuParserGenerator')]
